@@ -60,11 +60,12 @@ const (
 	JLoad
 	JAsm3
 	JAsm4
+	JAsm1b // the text of JAsm1 under another configuration (the result differs)
 )
 
-var jobNames = []string{"assemble(mov 0, 1)", "assemble(EQU + FOR)", "simulate(shared warrior)", "load(MOV.I $ 0, $ 1)", "assemble(labels + EQU chain + ;assert)", "assemble(FOR 0: a pass that emits nothing)"}
+var jobNames = []string{"assemble(mov 0, -1)", "assemble(EQU + FOR)", "simulate(shared warrior)", "load(MOV.I $ 0, $ 1)", "assemble(labels + EQU chain + ;assert)", "assemble(FOR 0: a pass that emits nothing)", "assemble(mov 0, -1 under CORESIZE 8000)"}
 
-const srcAsm1 = "mov 0, 1\n"
+const srcAsm1 = "mov 0, -1\n"
 const srcAsm2 = "n equ 2\ni for n\ndat i, n\nrof\n"
 const srcAsm3 = "a equ b+1\nb equ 2\n;assert a == 3\ns mov a, e\ne jmp s, b\n"
 const srcLoad = "MOV.I $ 0, $ 1\n"
@@ -89,6 +90,8 @@ func RunJob(kind int, cfg g.SimulatorConfig, shared *g.WarriorData) (res string)
 	switch kind {
 	case JAsm1:
 		return render(g.CompileWarrior(strings.NewReader(srcAsm1), cfg))
+	case JAsm1b:
+		return render(g.CompileWarrior(strings.NewReader(srcAsm1), g.ConfigNOP94))
 	case JAsm2:
 		return render(g.CompileWarrior(strings.NewReader(srcAsm2), cfg))
 	case JAsm3:
@@ -147,11 +150,29 @@ func (s *Scenario) describe() string {
 func Scenarios(thorough bool) [][]int {
 	// single jobs too: one assembly already runs a consumer and one or two
 	// producer goroutines whose interleaving must not change its result
-	out := [][]int{{JAsm4}, {JAsm2}, {JAsm1}, {JAsm4, JAsm1}, {JAsm1, JAsm1}, {JAsm1, JSim}, {JSim, JSim}, {JLoad, JAsm1}, {JLoad, JSim}, {JAsm1, JAsm2}, {JAsm2, JSim}, {JAsm2, JAsm2}, {JAsm3, JAsm1}, {JAsm3, JAsm3}}
+	out := [][]int{{JAsm4}, {JAsm2}, {JAsm1}, {JAsm4, JAsm1}, {JAsm1, JAsm1b}, {JAsm1b, JAsm1}, {JAsm1, JAsm1}, {JAsm1, JSim}, {JSim, JSim}, {JLoad, JAsm1}, {JLoad, JSim}, {JAsm1, JAsm2}, {JAsm2, JSim}, {JAsm2, JAsm2}, {JAsm3, JAsm1}, {JAsm3, JAsm3}}
 	if thorough {
 		out = append(out, []int{JAsm1, JAsm2, JSim}, []int{JSim, JSim, JAsm1}, []int{JAsm3, JSim, JLoad}, []int{JAsm1, JAsm1, JAsm1})
 	} else {
 		out = append(out, []int{JAsm1, JSim, JLoad})
 	}
 	return out
+}
+
+// Expected gives the by-construction result of the jobs whose meaning does not
+// need the reference assembler (a result cached under the wrong key would
+// also be returned when the job runs alone, so "equal to the sequential
+// result" is not enough for them).
+func Expected(kind int) (string, bool) {
+	switch kind {
+	case JAsm1:
+		return `ok [MOV.I $0 $79] start=0 name=""`, true // ConfigNopNano: CORESIZE 80
+	case JAsm1b:
+		return `ok [MOV.I $0 $7999] start=0 name=""`, true
+	case JAsm4:
+		return `ok [] start=0 name=""`, true
+	case JAsm2:
+		return `ok [DAT.F $1 $2 | DAT.F $2 $2] start=0 name=""`, true
+	}
+	return "", false
 }
